@@ -517,7 +517,8 @@ func statefulPart(r *kit.Run) {
 	old := ledger.DefLedger
 	ws := &windowStore{LedgerStore: l.GetStore()}
 	ledger.DefLedger = ledgerOver(ws)
-	defer func() { ledger.DefLedger = old; l.Close() }()
+	cur := l
+	defer func() { ledger.DefLedger = old; cur.Close() }()
 	valSeq++
 	v, err := stateful.NewValidator(fmt.Sprintf("c38-stateful-%d-%d", os.Getpid(), valSeq))
 	if err != nil {
@@ -709,13 +710,81 @@ func statefulPart(r *kit.Run) {
 			check(e, "after-commit")
 		}
 	}
-	r.Sample(map[string]interface{}{"part": "stateful", "blocks": nBlocks, "transactions": len(pool), "ledger_height": c.Store.GetCurrentBlockHeight()})
+	// --- the node restarts: the ledger is closed and opened again over the same directory. Whatever
+	// was committed before is still "in the ledger"; nothing that was not committed is.
+	reopen := func(when string) bool {
+		nonce := c.Nonce
+		cur.Close()
+		c2, l2, err := pk.OpenLedger(dir, 38, vals)
+		if err != nil {
+			r.Inconclusive("reopen: " + err.Error())
+			return false
+		}
+		c2.Nonce = nonce
+		c, cur = c2, l2
+		ws = &windowStore{LedgerStore: l2.GetStore()}
+		ledger.DefLedger = ledgerOver(ws)
+		r.Count("stateful_reopens", 1)
+		asked := 0
+		for _, e := range pool {
+			if e.committed > 0 {
+				r.Count("stateful_asked_after_reopen_committed", 1)
+			}
+			check(e, when)
+			asked++
+		}
+		for i := 0; i < 10; i++ { // and fresh ones are still fresh
+			e := mk()
+			pool = append(pool, e)
+			check(e, when)
+		}
+		return true
+	}
+	if !reopen("after-reopen") {
+		return
+	}
+	// --- a long time passes: many thousands of other transactions are committed after the ones we
+	// track (any bounded lookup cache in front of the store has turned over several times by then)
+	early := append([]*entry{}, pool...)
+	filler := r.N(12000, 36000)
+	perBlock := 1500
+	for done := 0; done < filler; done += perBlock {
+		txs := make([]*types.Transaction, perBlock)
+		for i := range txs {
+			c.Nonce++
+			txs[i] = pk.MakeTx(c.ChainID, c.Nonce, []byte{0xC3, 0x80, byte(i), byte(i >> 8)})
+		}
+		blk, _, err := c.AddBlock(txs, pk.BlockOpt{})
+		if err != nil {
+			r.Inconclusive("AddBlock(filler): " + err.Error())
+			return
+		}
+		r.Count("stateful_blocks", 1)
+		r.Count("stateful_filler_txs", perBlock)
+		// a sample of the filler itself is tracked too
+		for i := 0; i < 3; i++ {
+			pool = append(pool, &entry{tx: txs[rng.Intn(perBlock)], committed: blk.Header.Height})
+		}
+	}
+	for _, e := range early {
+		if e.committed > 0 {
+			r.Count("stateful_asked_after_many_later_txs_committed", 1)
+		}
+		check(e, "after-many-later-txs")
+	}
+	for _, e := range pool[len(early):] {
+		check(e, "after-many-later-txs")
+	}
+	if !reopen("after-second-reopen") {
+		return
+	}
+	r.Sample(map[string]interface{}{"part": "stateful", "blocks": nBlocks, "transactions": len(pool), "filler_transactions": filler, "reopens": 2, "ledger_height": c.Store.GetCurrentBlockHeight()})
 }
 
 func TestC38(t *testing.T) {
 	r := kit.Start(t, "C38", "exploration")
 	defer r.Finish()
-	r.Rule("increment validator: scripts over capacity 1..8 of {successor, gap, repeat/older, clean} blocks with 0..4 of 48 txs, after every step BlockRange and Verify(tx,start) for start ∈ {0, base-1, every tracked height, end, end+1} vs a reference tracker; concurrent AddBlock/Verify/BlockRange/Clean histories (2..12 goroutines racing for the same successor heights) checked by porcupine against the same reference; stateful validator actor on a real ledger: every tx asked before and after its block is committed, and every second round asked WHILE 1..3 blocks (one containing it) are committed between the validator's ledger lookup and its answer (schedule injected through a decorator of the store behind ledger.DefLedger); distinct = (part, capacity, op-mix)")
+	r.Rule("increment validator: scripts over capacity 1..8 of {successor, gap, repeat/older, clean} blocks with 0..4 of 48 txs, after every step BlockRange and Verify(tx,start) for start ∈ {0, base-1, every tracked height, end, end+1} vs a reference tracker; concurrent AddBlock/Verify/BlockRange/Clean histories (2..12 goroutines racing for the same successor heights) checked by porcupine against the same reference; stateful validator actor on a real ledger: every tx asked before and after its block is committed, and every second round asked WHILE 1..3 blocks (one containing it) are committed between the validator's ledger lookup and its answer (schedule injected through a decorator of the store behind ledger.DefLedger); then the ledger is closed and reopened over the same directory (restart) and every tx asked again, then 12000 / 36000 further transactions are committed and every tx asked again, then a second restart; distinct = (part, capacity, op-mix)")
 	r.Assume("Verify with start below the tracked range and a tx that is in no tracked block >= start: any non-'duplicated' answer is accepted (the tracker cannot vouch for heights it does not cover)")
 	r.Assume("capacity = the positive maxBlocks given to NewIncrementValidator (maxBlocks <= 0 is not exercised)")
 	txs := universe(r.Rand("txs"))
@@ -737,6 +806,10 @@ func TestC38(t *testing.T) {
 	r.Require("stateful_in_ledger", 50)
 	r.Require("stateful_not_in_ledger", 50)
 	r.Require("stateful_window_probes", 15)
+	r.Require("stateful_reopens", 2)
+	r.Require("stateful_asked_after_reopen_committed", 100)
+	r.Require("stateful_filler_txs", 12000)
+	r.Require("stateful_asked_after_many_later_txs_committed", 30)
 	if n := r.Get("porcupine_unknown"); n > int64(nHist/50) {
 		r.Inconclusive(fmt.Sprintf("%d histories timed out in porcupine", n))
 	}
